@@ -187,3 +187,23 @@ def c16(run):
                         "increasing map (the comparison code can only observe the order)",
                         "transitivity / totality are TLC ASSUMEs on the reference order; the real results are checked "
                         "for agreement with it on all pairs, for antisymmetry and for Equal <=> eq"]
+
+
+# ------------------------------------------------------------------------------------------- C08
+@check("C08", rule="one behaviour = a distinct iterator state (kind, slice length, size, remaining window, Option "
+                    "flag, forward/Rev) with its witness path of next/next_back/rev steps; at each state next, "
+                    "next_back and as_slice/remainder are compared; non-trivial = length >= 1")
+def c08(run):
+    q = run.tier == "quick"
+    out = vec("C08-SliceIter.ndjson")
+    if os.path.exists(out):
+        os.remove(out)
+    run.mc("MC_SliceIter", "SliceIter.quick.cfg" if q else "SliceIter.thorough.cfg", env={"OUT": out},
+           heap="8g", timeout=3000)
+    run.sample_file(out)
+    run.replay([out], "SliceIter state graph")
+    run.record_and_validate("SliceIter", "Trace_SliceIter", "Trace_SliceIter.cfg",
+                            n_files=4 if q else 16, n_events=5000 if q else 20000)
+    run.exhaustive = False
+    run.assumptions += [BOUNDED, STD_GUARD, "array_chunks is instantiated for N = 1..5 only",
+                        "elements are u16 with distinct values; a yielded item is identified by its address window"]
